@@ -112,6 +112,14 @@ def handle(c):
         except AnalysisError:
             out['vacuous'] += 1
             continue
+        except Exception as e:     # the unscaled model runs, the scaled one raises: scaling changed the outcome
+            if out['ok']:
+                import traceback
+                out['ok'] = False
+                out['sig'] = 'scaled-run-raises:%s' % type(e).__name__
+                out['msg'] = 'the unscaled model runs but the scaled one (variant %d) raises %s: %s | %s | cfg=%s' % (
+                    k, type(e).__name__, str(e)[:200], traceback.format_exc()[-400:], cfg)
+            continue
         exact = bool(variant['pow2']) and not coupled and cfg.get('lin') in ('runonce', 'lbgs')
         for key in [('state',), ('inputs',)] + [('J', m, ds) for m in ('fwd', 'rev') for ds in (False, True)]:
             kk = key[0] if len(key) == 1 else key
